@@ -19,6 +19,9 @@ func (c claim) in(h racHistory, verifier string) map[string]interface{} {
 	return map[string]interface{}{"history": h.String(), "targets": c.targets, "hashes": shortHashes(c.hashes), "proof": shortHashes(c.proof), "verifier": verifier}
 }
 
+// racAliasTargets: the single targets of the current state that name a node in the numbering of a taller forest.
+var racAliasTargets map[uint64]bool
+
 // claimClass: discriminating predicate for findings (C03): what is wrong with the claim.
 func claimClass(c claim) string {
 	for _, p := range c.proof {
@@ -32,6 +35,11 @@ func claimClass(c claim) string {
 			return "targets-contain-a-repeated-position"
 		}
 		seen[t] = true
+	}
+	for _, t := range c.targets {
+		if racAliasTargets[t] {
+			return "target-beyond-the-forest-in-the-numbering-of-a-taller-forest"
+		}
 	}
 	return "distinct-targets"
 }
@@ -80,7 +88,7 @@ func checkSound(res *racResult, w *racWorld, h racHistory, placed map[uint64]Has
 
 func TestRAC_C03(t *testing.T) {
 	res := newRacResult("C03")
-	cfgs := []mapCfg{{Full: true, TotalRows: 63}, {Full: true, TotalRows: 0}}
+	cfgs := []mapCfg{{Full: true, TotalRows: 63}, {Full: true, TotalRows: 0}, {Full: true, TotalRows: 3}}
 	maxLeaves, maxBlocks := 4, 2
 	maxProof2 := 1
 	if res.thorough() {
@@ -125,7 +133,25 @@ func TestRAC_C03(t *testing.T) {
 					proofs2 = append(proofs2, []Hash{a, b})
 				}
 			}
+			// single targets: every position 0..2^(rows+1), and the names the same nodes have in the numbering of a
+			// taller forest (3 and 63 rows): those positions do not exist in this forest
+			t1s := []uint64{}
+			isAlias := map[uint64]bool{}
+			racAliasTargets = isAlias
 			for t1 := uint64(0); t1 <= maxp; t1++ {
+				t1s = append(t1s, t1)
+			}
+			for t1 := uint64(0); t1 < maxp; t1++ {
+				for _, tr := range []uint8{3, 63} {
+					if tr > rows {
+						if a := translatePos(t1, rows, tr); a > maxp && !isAlias[a] {
+							isAlias[a] = true
+							t1s = append(t1s, a)
+						}
+					}
+				}
+			}
+			for _, t1 := range t1s {
 				for _, h1 := range alpha {
 					ps := proofs
 					ps = append(ps, proofs2...)
@@ -225,7 +251,7 @@ func TestRAC_C03(t *testing.T) {
 		res.eval("Verify.rac.returns")
 		res.fail("Verify.rac.returns", cur.in(curH, "any"), "the bounded run did not finish in time (a verifier call may not return)", "returns")
 	}
-	res.Rule = fmt.Sprintf("every reachable state of histories with <= %d leaves / <= %d blocks: every claim with 1 target (positions 0..2^(rows+1), hashes from {every node/root hash, one fresh}, proofs of length 0..2 over the same alphabet) and every claim with 2 targets WITH repetition and nesting (proof length 0..%d); plus structured mutations (swap, duplicate, re-target, corrupt, truncate, re-root, non-existent position) of honest proofs on seeded random forests; verifiers: Verify, Pollard.Verify, MapPollard.Verify, VerifyPartialProof; oracle: specForest.Placed. distinct = claims", maxLeaves, maxBlocks, maxProof2)
+	res.Rule = fmt.Sprintf("every reachable state of histories with <= %d leaves / <= %d blocks: every claim with 1 target (positions 0..2^(rows+1) and the positions that name the same nodes in the numbering of a 3-row and a 63-row forest, hashes from {every node/root hash, one fresh}, proofs of length 0..2 over the same alphabet) and every claim with 2 targets WITH repetition and nesting (proof length 0..%d); plus structured mutations (swap, duplicate, re-target, corrupt, truncate, re-root, non-existent position) of honest proofs on seeded random forests; verifiers: Verify, Pollard.Verify, MapPollard.Verify, VerifyPartialProof; oracle: specForest.Placed. distinct = claims", maxLeaves, maxBlocks, maxProof2)
 	res.Scope = fmt.Sprintf("states=%d", n)
 	res.write(t)
 }
